@@ -8,6 +8,10 @@ the table obligation and makes the pipeline widen its search):
   * `os.environ.get('DBUS_SYSTEM_BUS_ADDRESS', <str>)`            -> systemDefault
   * `addrString.split(<str>)`, `ep_addr.split(<str>)`, `c.split(<str>)`   -> the three one-character separators
   * `if kind == <str>:` / `elif kind == <str>:` after the component loop  -> unixKind, tcpKind
+  * inside the unix branch, the chain `if <str> in d: path = <concatenation of d[<same str>], literals, str(os.getpid())>
+    elif ...`                                                        -> unixPathRules (key, parts), in priority order
+  * `TCP4ClientEndpoint(reactor, d[<str>], int(d[<str>]))` in the tcp branch  -> tcpHostKey, tcpPortKey
+  * `if busAddress == <str>: ... elif busAddress == <str>:`          -> sessionWord, systemWord
 """
 import ast
 import inspect
@@ -22,10 +26,59 @@ class TranslatorError(Exception):
 def chars(s):
     out = []
     for c in s:
-        if not (32 <= ord(c) < 127) or c in "'\\":
-            raise TranslatorError('character %r outside the printable ASCII subset' % (c,))
-        out.append("'%s'" % c)
+        if ord(c) >= 127:
+            raise TranslatorError('character %r outside ASCII' % (c,))
+        if not (32 <= ord(c)) or c in "'\\":
+            out.append('Char.ofNat %d' % ord(c))
+        else:
+            out.append("'%s'" % c)
     return '[' + ', '.join(out) + ']'
+
+
+def d_key(node):
+    """The literal k in `d[k]`, or None."""
+    if isinstance(node, ast.Subscript) and is_name(node.value, 'd') and isinstance(node.slice, ast.Constant) \
+            and isinstance(node.slice.value, str):
+        return node.slice.value
+    return None
+
+
+def path_parts(expr, key):
+    """Flatten `a + b + c` into parts: d[key] -> key, a string literal -> lit, str(os.getpid()) -> pid."""
+    if isinstance(expr, ast.BinOp) and isinstance(expr.op, ast.Add):
+        return path_parts(expr.left, key) + path_parts(expr.right, key)
+    if d_key(expr) is not None:
+        if d_key(expr) != key:
+            raise TranslatorError('path rule for %r reads d[%r]' % (key, d_key(expr)))
+        return ['.key']
+    if isinstance(expr, ast.Constant) and isinstance(expr.value, str):
+        return ['.lit ' + chars(expr.value)]
+    if (isinstance(expr, ast.Call) and is_name(expr.func, 'str') and len(expr.args) == 1
+            and isinstance(expr.args[0], ast.Call) and isinstance(expr.args[0].func, ast.Attribute)
+            and expr.args[0].func.attr == 'getpid'):
+        return ['.pid']
+    raise TranslatorError('path rule for %r: unsupported expression %s' % (key, ast.dump(expr)))
+
+
+def unix_path_rules(branch_body):
+    """The `if k in d: path = ... elif ...` chain at the start of the unix branch."""
+    node = branch_body[0]
+    rules = []
+    while node is not None:
+        if not (isinstance(node, ast.If) and isinstance(node.test, ast.Compare) and len(node.test.ops) == 1
+                and isinstance(node.test.ops[0], ast.In) and is_name(node.test.comparators[0], 'd')):
+            raise TranslatorError('unix branch does not start with the `<key> in d` chain')
+        key = const_str(node.test.left, 'path rule key')
+        if not (len(node.body) == 1 and isinstance(node.body[0], ast.Assign) and is_name(node.body[0].targets[0], 'path')):
+            raise TranslatorError('path rule for %r is not a single assignment to `path`' % key)
+        rules.append((key, path_parts(node.body[0].value, key)))
+        if not node.orelse:
+            node = None
+        elif len(node.orelse) == 1:
+            node = node.orelse[0]
+        else:
+            raise TranslatorError('path rule chain ends with an else branch')
+    return rules
 
 
 def const_str(node, what):
@@ -124,14 +177,37 @@ def emit(repo):
     if len(outer) != 1:
         raise TranslatorError('expected one loop `for ep_addr in ...`')
     kinds = []
+    branches = []
     for st in outer[0].body:
         node = st
         while isinstance(node, ast.If) and isinstance(node.test, ast.Compare) and is_name(node.test.left, 'kind') \
                 and len(node.test.ops) == 1 and isinstance(node.test.ops[0], ast.Eq):
             kinds.append(const_str(node.test.comparators[0], 'kind comparison'))
+            branches.append(node.body)
             node = node.orelse[0] if len(node.orelse) == 1 else None
     if len(kinds) != 2:
         raise TranslatorError('expected `if kind == <unix>: ... elif kind == <tcp>: ...`, found %r' % (kinds,))
+    rules = unix_path_rules(branches[0])
+    tcp_keys = None
+    for n in ast.walk(ast.Module(body=branches[1], type_ignores=[])):
+        if isinstance(n, ast.Call) and is_name(n.func, 'TCP4ClientEndpoint') and len(n.args) == 3:
+            h = d_key(n.args[1])
+            pcall = n.args[2]
+            pk = d_key(pcall.args[0]) if (isinstance(pcall, ast.Call) and is_name(pcall.func, 'int')
+                                          and len(pcall.args) == 1) else None
+            if h is None or pk is None:
+                raise TranslatorError('TCP4ClientEndpoint(reactor, d[<str>], int(d[<str>])) expected')
+            tcp_keys = (h, pk)
+    if tcp_keys is None:
+        raise TranslatorError('TCP4ClientEndpoint call not found in the tcp branch')
+    words = []
+    for n in ast.walk(fn):
+        if (isinstance(n, ast.Compare) and is_name(n.left, 'busAddress') and len(n.ops) == 1
+                and isinstance(n.ops[0], ast.Eq)):
+            words.append(const_str(n.comparators[0], 'busAddress comparison'))
+    if len(words) != 2:
+        raise TranslatorError('expected `busAddress == <session>` and `busAddress == <system>`, found %r' % (words,))
+    rule_rows = ['  (%s, [%s])' % (chars(k), ', '.join(parts)) for k, parts in rules]
     rows = []
     for prefix, kind, strip, flag in table:
         rows.append('  (%s, %s, %d, %s)' % (chars(prefix), chars(kind), strip,
@@ -149,6 +225,26 @@ def prefixTable : List (List Char × List Char × Nat × Option (List Char)) := 
 def unixKind : List Char := %s
 def tcpKind : List Char := %s
 
+/-- A piece of the expression the unix socket path is built from. -/
+inductive PathPart
+  | key                      -- d[<the rule's key>]
+  | lit (s : List Char)      -- a string literal
+  | pid                      -- str(os.getpid())
+deriving DecidableEq, Repr
+
+/-- `if k in d: path = <parts>  elif ...` in the unix branch, in the code's (priority) order. -/
+def unixPathRules : List (List Char × List PathPart) := [
+%s
+]
+
+/-- `TCP4ClientEndpoint(reactor, d[tcpHostKey], int(d[tcpPortKey]))`. -/
+def tcpHostKey : List Char := %s
+def tcpPortKey : List Char := %s
+
+/-- The two special values of `busAddress`. -/
+def sessionWord : List Char := %s
+def systemWord : List Char := %s
+
 /-- Default of DBUS_SYSTEM_BUS_ADDRESS. -/
 def systemDefault : List Char := %s
 
@@ -157,4 +253,5 @@ def componentSep : Char := '%s'
 def keyValueSep : Char := '%s'
 
 end Txdbus.Gen.C09Endpoints
-''' % (',\n'.join(rows), chars(kinds[0]), chars(kinds[1]), chars(sysdef), entry_sep, comp_sep, kv_sep)
+''' % (',\n'.join(rows), chars(kinds[0]), chars(kinds[1]), ',\n'.join(rule_rows), chars(tcp_keys[0]),
+       chars(tcp_keys[1]), chars(words[0]), chars(words[1]), chars(sysdef), entry_sep, comp_sep, kv_sep)
